@@ -1579,7 +1579,7 @@ void ScriptVariable::setArrayAtRef(const ScriptVariable& index, const ScriptVari
         intValue = index.intValue();
         string = stringValue();
 
-        if (intValue >= (intptr_t)string.length()) {
+        if (intValue < 0 || intValue >= (intptr_t)string.length()) {
             throw ScriptVariableErrors::TypeIndexOutOfRange("String", intValue);
         }
 
